@@ -4,7 +4,7 @@ from props import _generic as g
 
 def run(ctx):
     fns = g.run_pyvc(ctx, "C06")
-    res = ctx.cvc(["II", "IO", "OO"] if ctx.tier == "quick" else ["II", "IO", "OO", "LF", "QQ", "OI"], ["F-STATE"], functions=["bucket_getstate"])
+    res = ctx.cvc(["II", "IO", "OO"] if ctx.tier == "quick" else ["II", "IO", "OO", "LF", "QQ", "OI"], ["F-STATE"], functions=["bucket_getstate", "BTree_getstate"])
     res2 = ctx.cvc(["OO"], ["F-STATE"], functions=["_bucket_setstate"])
     replay.replay_fstate(ctx, res2)
     from lib import replay
@@ -19,7 +19,9 @@ def run(ctx):
         "carries its own typing obligation. Engine C, F-STATE: the C bucket_getstate from its real body (both loops cut at "
         "invariants) emits exactly the documented tuple for every length and content: 2*len resp. len items, item 2j the object of "
         "keys[j] and item 2j+1 the object of values[j] (resp. item j the object of keys[j]), (items, next) iff there is a successor, "
-        "every PyTuple_SET_ITEM inside the tuple; _bucket_setstate of the object-keyed unit reads that tuple back (len' == len(items)/2, "
+        "every PyTuple_SET_ITEM inside the tuple; BTree_getstate likewise (None for an empty tree; the ONLY child embedded as ((leafstate,),) "
+        "exactly when it is a leaf without an oid of its own; otherwise (items, firstbucket) with the children and the objects of the "
+        "separators interleaved; no NULL stored - found and fixed: 5b9672e); _bucket_setstate of the object-keyed unit reads that tuple back (len' == len(items)/2, "
         "entry j is (items[2j], items[2j+1]), the successor is taken over, every item read inside the tuple, vectors only grown) - "
         "together the C round trip of a leaf; the integer units' conversions inside setstate are F-CONV's sites (C13). "
         "pickle/copy, byte identity between C and Python, set / tree state code of the C side are outside both engines: "
